@@ -16,16 +16,16 @@ from mc.ref.discrete import posterior
 from mc.stats import Stats
 
 EXPLORER = "E2"
-RULE = ("(b) E2: every history of <=3 questions from an 8-letter alphabet (10 for belief propagation: + calibrate, max_calibrate) (plain posterior, with evidence, joint=False, "
+RULE = ("(b) E2: every history of <=3 questions from an 11-letter alphabet (13 for belief propagation: + calibrate, max_calibrate) (plain posterior, with evidence, the same node sets with query/evidence roles swapped, joint=False, "
         "virtual evidence on two different variables, MAP over a subset, MAP over all variables, explicit elimination "
         "order) on ONE shared VariableElimination / BeliefPropagation / CausalInference / BayesianModelSampling engine: "
         "every answer must equal a fresh engine's (and the reference joint), the model must be untouched. (a) E1 purity: "
-        "deep snapshot of model / data / start graph before and after every inference, scoring, estimation, search, "
+        "deep snapshot of model / data / start graph AND of every mutable call argument (evidence / do dicts, variable lists, State lists, virtual-evidence CPDs, frames) before and after every inference, scoring, estimation, search, "
         "writer, conversion, sampler call. (c) E1 representation: the C01/C03/C04 cases re-run in sub-processes under "
         "PYTHONHASHSEED in {1,2,3}, under the torch back end (float64; float32 with tolerance 1e-5), and under every "
         "node/edge/CPD insertion order. non-trivial = distinct histories containing a virtual-evidence question followed "
         "by another question, plus distinct (api, model) purity cases")
-BOUNDS = {"quick": "(b) depth 3 (584 histories) x 4 engines x 3 models; (a) 40 API calls x 4 models; (c) hash seeds {1,2,3} x 12 C01 groups + torch on 12 C01 / 8 C04 groups; all 3!x|E|!x3! insertion orders on 6 models",
+BOUNDS = {"quick": "(b) depth 3 (11+121+1331 histories on VE, 13+169+2197 on BP, 584 on the others) x 3 models; (a) 40 API calls x 4 models + 32 argument-purity calls x 3 models x 2 styles; (c) hash seeds {1,2,3} x 12 C01 groups + torch on 12 C01 / 8 C04 groups; all 3!x|E|!x3! insertion orders on 6 models",
           "thorough": "(b) depth 4 on VE; (c) 60 groups per environment"}
 EXHAUSTIVE = {"quick": True, "thorough": True}
 ASSUMPTIONS = ["order of model.cpds is not content", "model.fit / fit_update / inplace=True are documented to mutate and are not purity cases",
@@ -42,10 +42,12 @@ def groups(tier, seed):
     out = []
     for mi in range(len(MODELS)):
         for eng in ("ve", "bp", "ci", "sampling"):
-            for first in range(10 if eng == "bp" else 8):
+            for first in range({"bp": 13, "ve": 11}.get(eng, 8)):
                 out.append({"part": "hist", "model": mi, "engine": eng, "first": first, "depth": 4 if (tier == "thorough" and eng == "ve") else 3})
     for mi in range(len(MODELS)):
         out.append({"part": "purity", "model": mi})
+    for mi in range(len(MODELS)):
+        out.append({"part": "purity-args", "model": mi})
     out.append({"part": "purity-data"})
     for mi in range(len(MODELS)):
         out.append({"part": "insertion", "model": mi})
@@ -68,7 +70,7 @@ def groups(tier, seed):
 
 def run_group(g, tier):
     st = Stats()
-    {"hist": _hist, "purity": _purity, "purity-data": _purity_data, "insertion": _insertion, "env": _env}[g["part"]](st, g)
+    {"hist": _hist, "purity": _purity, "purity-args": _purity_args, "purity-data": _purity_data, "insertion": _insertion, "env": _env}[g["part"]](st, g)
     return st
 
 
@@ -78,7 +80,7 @@ def replay(case):
     if g["part"] == "hist":
         _hist(st, g, only=case["history"])
     else:
-        run = {"purity": _purity, "purity-data": _purity_data, "insertion": _insertion, "env": _env}[g["part"]]
+        run = {"purity": _purity, "purity-args": _purity_args, "purity-data": _purity_data, "insertion": _insertion, "env": _env}[g["part"]]
         run(st, g)
         st.violations = [v for v in st.violations if v["site"] == case.get("site") and v["case"].get("api") == case.get("api")]
     return st.violations[:5]
@@ -124,6 +126,10 @@ def _ve_alphabet(ref, lab):
         ("map[A,B]|C", lambda e: e.map_query([A, B], evidence={C: c1}, show_progress=False), ([0, 1], {2: 1}, [], "map")),
         ("map[all]", lambda e: e.map_query([A, B, C], show_progress=False), ([0, 1, 2], {}, [], "map")),
         ("map()", lambda e: e.map_query(show_progress=False), ([0, 1, 2], {}, [], "map")),
+        # the same node sets with query / evidence roles swapped (a cache keyed by the node set would confuse them)
+        ("q[C]|B", lambda e: e.query([C], evidence={B: lab.state(1, 1)}, show_progress=False), ([2], {1: 1}, [])),
+        ("q[B]|C", lambda e: e.query([B], evidence={C: lab.state(2, 0)}, show_progress=False), ([1], {2: 0}, [])),
+        ("q[C]|A", lambda e: e.query([C], evidence={A: lab.state(0, 1)}, show_progress=False), ([2], {0: 1}, [])),
     ]
 
 
@@ -360,6 +366,107 @@ def _purity(st, g):
             if err:
                 st.bump("api-raised:" + name)
     st.sample({"model": MODELS[g["model"]], "apis": [a for a, _ in _apis(ref, lab, model)][:8]})
+
+
+def snap_arg(x):
+    """comparable deep snapshot of a call argument"""
+    import pandas as pd
+
+    if isinstance(x, pd.DataFrame):
+        return ("df", snap_df(x))
+    if hasattr(x, "variables") and hasattr(x, "values") and hasattr(x, "cardinality"):
+        return ("factor", [str(v) for v in x.variables], [int(c) for c in x.cardinality], np.asarray(x.values, dtype=float).round(12).tolist(),
+                {str(k): [str(s) for s in v] for k, v in x.state_names.items()})
+    if isinstance(x, dict):
+        return ("dict", [(repr(k), snap_arg(v)) for k, v in x.items()])
+    if isinstance(x, (set, frozenset)):
+        return ("set", sorted(repr(v) for v in x))
+    if isinstance(x, tuple) and hasattr(x, "_fields"):
+        return ("nt", [repr(v) for v in x])
+    if isinstance(x, (list, tuple)):
+        return (type(x).__name__, [snap_arg(v) for v in x])
+    return repr(x)
+
+
+def _arg_apis(ref, lab, model):
+    """(name, callable(**kwargs), kwargs): every mutable argument is snapshotted before and compared after the call"""
+    import pandas as pd
+
+    from pgmpy.factors.discrete import State
+    from pgmpy.inference import ApproxInference, BeliefPropagation, CausalInference, VariableElimination
+    from pgmpy.sampling import BayesianModelSampling
+
+    A, B, C = (lab.name(i) for i in range(3))
+    a0, a1, b1, c1 = lab.state(0, 0), lab.state(0, 1), lab.state(1, 1), lab.state(2, 1)
+    lik = {2: (1, 0.5), 3: (1, 0.5, 0.25)}
+    virt = lambda: _virt(lab, ref, 0, lik[ref.card[0]])
+    df = lambda: pd.DataFrame({A: [a0, a1], B: [b1, lab.state(1, 0)]})
+    roots = [v for v in (A, B) if not list(model.predecessors(v))]
+    out = [
+        ("VE.query", lambda **k: VariableElimination(model).query(show_progress=False, **k), {"variables": [A], "evidence": {C: c1}}),
+        ("VE.query(order)", lambda **k: VariableElimination(model).query(show_progress=False, **k), {"variables": [A], "evidence": {C: c1}, "elimination_order": [B]}),
+        ("VE.query(joint=False)", lambda **k: VariableElimination(model).query(show_progress=False, joint=False, **k), {"variables": [A, B], "evidence": {C: c1}}),
+        ("VE.query(virtual)", lambda **k: VariableElimination(model).query(show_progress=False, **k), {"variables": [B], "evidence": {C: c1}, "virtual_evidence": virt()}),
+        ("VE.map_query", lambda **k: VariableElimination(model).map_query(show_progress=False, **k), {"variables": [A, B], "evidence": {C: c1}}),
+        ("VE.map_query(virtual)", lambda **k: VariableElimination(model).map_query(show_progress=False, **k), {"variables": [B], "evidence": {C: c1}, "virtual_evidence": virt()}),
+        ("VE.max_marginal", lambda **k: VariableElimination(model).max_marginal(show_progress=False, **k), {"variables": [A], "evidence": {C: c1}}),
+        ("BP.query", lambda **k: BeliefPropagation(model).query(show_progress=False, **k), {"variables": [A], "evidence": {C: c1}}),
+        ("BP.query(virtual)", lambda **k: BeliefPropagation(model).query(show_progress=False, **k), {"variables": [B], "evidence": {C: c1}, "virtual_evidence": virt()}),
+        ("BP.map_query", lambda **k: BeliefPropagation(model).map_query(show_progress=False, **k), {"variables": [A, B], "evidence": {C: c1}}),
+        ("CausalInference.query(do)", lambda **k: CausalInference(model).query(show_progress=False, **k), {"variables": [C], "do": {A: a0}, "evidence": {}}),
+        ("CausalInference.query(do,evidence)", lambda **k: CausalInference(model).query(show_progress=False, **k), {"variables": [C], "do": {A: a0}, "evidence": {B: b1}}),
+        ("CausalInference.query(do B)", lambda **k: CausalInference(model).query(show_progress=False, **k), {"variables": [C], "do": {B: b1}, "evidence": {}}),
+        ("CausalInference.query(do,adjustment=[])", lambda **k: CausalInference(model).query(show_progress=False, **k), {"variables": [C], "do": {B: b1}, "evidence": {A: a0}, "adjustment_set": []}),
+        ("CausalInference.query(bp)", lambda **k: CausalInference(model).query(show_progress=False, inference_algo="bp", **k), {"variables": [C], "do": {A: a0}, "evidence": {B: b1}}),
+        ("predict", lambda **k: model.predict(n_jobs=1, **k), {"data": df()}),
+        ("predict_probability", lambda **k: model.predict_probability(**k), {"data": df()}),
+        ("get_state_probability", lambda **k: model.get_state_probability(**k), {"states": {A: a0, C: c1}}),
+        ("rejection_sample", lambda **k: BayesianModelSampling(model).rejection_sample(size=2, seed=1, show_progress=False, **k), {"evidence": [State(C, c1)]}),
+        ("likelihood_weighted_sample", lambda **k: BayesianModelSampling(model).likelihood_weighted_sample(size=2, seed=1, show_progress=False, n_jobs=1, **k), {"evidence": [State(C, c1), State(A, a0)]}),
+        ("simulate(do,evidence)", lambda **k: model.simulate(n_samples=3, seed=1, show_progress=False, **k), {"do": {roots[0] if roots else A: lab.state(0 if (roots[0] if roots else A) == A else 1, 0)}, "evidence": {C: c1}}),
+        ("simulate(virtual)", lambda **k: model.simulate(n_samples=3, seed=1, show_progress=False, **k), {"virtual_evidence": virt(), "evidence": {C: c1}}),
+        ("ApproxInference.query", lambda **k: ApproxInference(model).query(n_samples=20, seed=1, show_progress=False, **k), {"variables": [A], "evidence": {C: c1}}),
+        ("do", lambda **k: model.do(**k), {"nodes": [B]}),
+        ("active_trail_nodes", lambda **k: model.active_trail_nodes(**k), {"variables": [A], "observed": [C]}),
+        ("is_dconnected", lambda **k: model.is_dconnected(A, B, **k), {"observed": [C]}),
+        ("get_ancestral_graph", lambda **k: model.get_ancestral_graph(**k), {"nodes": [B]}),
+        ("cpd.reorder_parents", lambda **k: model.get_cpds(C).reorder_parents(inplace=False, **k), {"new_order": list(model.get_cpds(C).variables[1:][::-1])}),
+        ("cpd.marginalize", lambda **k: model.get_cpds(C).marginalize(inplace=False, **k), {"variables": list(model.get_cpds(C).variables[1:2])}),
+        ("cpd.reduce", lambda **k: model.get_cpds(C).reduce(inplace=False, **k), {"values": [(v, lab.state(lab.id[v], 0)) for v in model.get_cpds(C).variables[1:2]]}),
+        ("factor.reduce", lambda **k: model.get_cpds(C).to_factor().reduce(inplace=False, **k), {"values": [(C, c1)]}),
+        ("factor.marginalize", lambda **k: model.get_cpds(C).to_factor().marginalize(inplace=False, **k), {"variables": [C]}),
+    ]
+    return out
+
+
+def _purity_args(st, g):
+    """the caller's argument objects (evidence / do dicts, variable lists, State lists, virtual-evidence CPDs, data frames) are untouched"""
+    for style in ("str", "def"):
+        ref, lab, model = _model(g["model"], style)
+        snap0 = snap_model(model)
+        st.states += 1
+        for name, fn, kwargs in _arg_apis(ref, lab, model):
+            case = {"g": g, "site": "purity-args", "api": name, "style": style}
+            before = {k: snap_arg(v) for k, v in kwargs.items()}
+            st.evals += 1
+            st.transitions += 1
+            st.nt((name, style))
+            try:
+                np.random.seed(7)
+                fn(**kwargs)
+                err = None
+            except Exception as ex:
+                err = repr(ex)[:200]
+            st.compared += 1
+            changed = [k for k, v in kwargs.items() if snap_arg(v) != before[k]]
+            if changed:
+                st.violation("purity-args", "argument-changed", case, {"changed": changed, "after": {k: str(snap_arg(kwargs[k]))[:200] for k in changed}, "error": err}, None)
+            if snap_model(model) != snap0:
+                st.violation("purity-args", "model-changed", case, {"error": err}, None)
+                ref, lab, model = _model(g["model"], style)
+            if err:
+                st.bump("api-raised:" + name)
+    st.sample({"model": MODELS[g["model"]], "apis": [a for a, _, _ in _arg_apis(ref, lab, model)][:8]})
 
 
 def _dataset():
